@@ -29,6 +29,14 @@ Section KeyedSet.
   Definition eappend (s : list A) (x : A) : list A := if emem x s then s else s ++ [x].
   Definition ebuild (l : list A) : list A := fold_left eappend l [].
 
+  Lemma NoDup_app_one {B} (l : list B) (x : B) : NoDup l -> ~ In x l -> NoDup (l ++ [x]).
+  Proof.
+    induction l as [|a l IH]; intros N H; cbn [app]; [constructor; [intros []|constructor]|].
+    inversion N as [|? ? Na Nl]; subst. constructor.
+    - intros Hin. apply in_app_or in Hin. destruct Hin as [Hin|[->|[]]]; [contradiction|]. apply H. now left.
+    - apply IH; [exact Nl|]. intros Hx. apply H. now right.
+  Qed.
+
   Definition injective_on (l : list A) : Prop := forall x y, In x l -> In y l -> key x = key y -> x = y.
 
   Lemma kmem_In x s : kmem x s = true <-> exists y, In y s /\ key y = key x.
@@ -67,6 +75,18 @@ Section KeyedSet.
     - apply kmem_In in M. destruct M as [y [H1 H2]]. exists y. split; [now apply kfold_keeps | exact H2].
     - exists x. split; [apply kfold_keeps, in_or_app; right; now left | reflexivity].
   Qed.
+
+  (* no two members of the set share a key, whatever the key function (this is what "set" means for OrderedSet) *)
+  Lemma kfold_nodup_keys l : forall s, NoDup (map key s) -> NoDup (map key (fold_left kappend l s)).
+  Proof.
+    induction l as [|a l IH]; intros s N; cbn [fold_left]; [exact N|].
+    apply IH. unfold kappend. destruct (kmem a s) eqn:M; [exact N|].
+    rewrite map_app. cbn [map]. apply NoDup_app_one; [exact N|].
+    intros H. apply in_map_iff in H. destruct H as [y [H1 H2]].
+    assert (kmem a s = true) by (apply kmem_In; now exists y). congruence.
+  Qed.
+  Theorem kbuild_nodup_keys l : NoDup (map key (kbuild l)).
+  Proof. apply kfold_nodup_keys. constructor. Qed.
 
   (* THE statement the builder models rely on: with a key that is injective on what is supplied, every supplied member is
      a member of the set *)
